@@ -116,7 +116,7 @@ class QintImp(int, Qtype):
 
         if len(tleft[1]) < len(tcomp[1]):
             for x in tcomp[1][len(tleft[1]) :]:
-                ex = Or(ex, x)
+                ex = And(ex, Not(x))
 
         return (bool, ex)
 
